@@ -333,6 +333,10 @@ def _mode_t(ctx, direction):
     npre = ctx.choice(3, "npreempt") if ctx.choice(3, "preq") == 0 else 0
     ctx.enable_threads((0, 4, 16)[ctx.choice(3, "policy")], [1 + ctx.choice(3000, "prepos") for _ in range(npre)],
                        os.path.join(patch.REPO, "canopen"))
+    if ctx.choice(3, "stalls") == 1:
+        # slow tasks: a woken thread is scheduled late
+        ctx.stall = lambda: (0, 0, 0, 200 * US, 2 * MS)[ctx.choice(5, "stall")]
+        ctx.fault("slow-task")
     w = W(ctx)
     pair = Pair(w, direction, 1)
     configure(ctx, w, pair, 0x180 + w.nid if direction == "tpdo" else 0x200 + w.nid, gen_layout(ctx), via_save=False)
